@@ -205,7 +205,50 @@ def run(prop, tier, seed, rep):
     if r1["ok"]:
         raise core.ToolError("anti-vacuity: the model with a text line buffer (read_line) no longer violates LevelA on a feed with a stray byte")
     jobs = []
-    pick = rng.sample(scheds, min(len(scheds), 40 if tier == "quick" else 1500))
+    # which schedules are replayed: first a cover of the kinds of cut the model distinguishes - the kind of line a segment
+    # ends in, where in the line, the gap that follows, and every combination of cuts inside one line - then a random sample
+    KL = {"V": 5, "U": 5, "S": 2, "E": 1}
+
+    def classes(feed, sched):
+        starts, pos = [], 0
+        for c in feed:
+            starts.append((pos, c))
+            pos += KL[c]
+        out, cum, inline = set(), 0, {}
+        for k, g in sched[:-1] if sum(k for k, _ in sched) == pos else sched:
+            cum += k
+            li = max(i for i, (st, _) in enumerate(starts) if st <= cum - 1) if cum > 0 else 0
+            st, c = starts[li]
+            off = cum - st                     # bytes of line li sent so far (== its length: the cut is at the line's end)
+            out.add(("cut", c, off if off < KL[c] else "end", g))
+            if off < KL[c]:
+                inline.setdefault(li, []).append((off, g))
+        for li, cuts in inline.items():
+            if len(cuts) >= 2:
+                out.add(("cuts", starts[li][1], tuple(cuts)))
+        return out
+    cls = [classes(f_, s_) for f_, s_ in scheds]
+    freq = {}
+    for c in cls:
+        for x in c:
+            freq[x] = freq.get(x, 0) + 1
+    covered, pick_i = set(), []
+    budget = 90 if tier == "quick" else 600
+    while len(pick_i) < budget:
+        best, gain = None, 0.0
+        for i, c in enumerate(cls):
+            g_ = sum(1.0 / freq[x] for x in c if x not in covered)
+            if g_ > gain:
+                best, gain = i, g_
+        if best is None:
+            break
+        pick_i.append(best)
+        covered |= cls[best]
+    rep.extra["model_cut_classes"] = len(freq)
+    rep.extra["model_cut_classes_replayed"] = len(covered)
+    pick = [scheds[i] for i in pick_i]
+    rest = [x for i, x in enumerate(scheds) if i not in set(pick_i)]
+    pick += rng.sample(rest, min(len(rest), 15 if tier == "quick" else 900))
     # ... and the schedules that tell a byte buffer from a text buffer: a pause right before and right after the stray byte
     def isolates_stray(feed, sched):
         if "U" not in feed:
